@@ -148,9 +148,17 @@ def install(reg):
         v = args[0]
         if isinstance(v, VBytes):
             return [(st, v)]
+        if isinstance(v, (VInt, VEnum)) and not isinstance(v, VBool):
+            # bytes(n): n zero bytes; ValueError for a negative count
+            n = ex.as_int(v, node)
+            ok, e2 = ex.guard(st, n >= 0, 'builtins:ValueError')
+            out = [(e2, None)] if e2 is not None else []
+            if ok is not None:
+                out.append((ok, VBytes(z3.simplify(n), lambda i: z3.IntVal(0))))
+            return out
         if isinstance(v, VList):
             v = ex.list_as_seq(st, v)
-            if v.e != INT:
+            if v.e != INT and not (z3.is_int_value(z3.simplify(v.len)) and (v.e[0] == 'enum' or (v.e[0] == 'opt' and v.e[1][0] in ('int', 'enum')))):
                 ex.unsupported(node, 'bytes() of non-int list')
             if z3.is_int_value(z3.simplify(v.len)):
                 n = z3.simplify(v.len).as_long()
